@@ -179,6 +179,7 @@ func oracleC07(cl *Classifier, x []byte, alone Results, contexts []c07Context) (
 
 func smallScope(c *vrep.Ctx, prop string) {
 	vSmallSettings(c.Param("vocab", "ascii"), c.ParamInt("dictoffset", 0))
+	vSmallSetReplace(c.Param("replace", "no") == "yes")
 	maxLen := c.ParamInt("maxlen", c.Pick(7, 9))
 	ts := []float64{0.5, 0.7, 0.8}
 	if prop == "c03" {
@@ -206,6 +207,7 @@ func smallScope(c *vrep.Ctx, prop string) {
 	c.Bound("max_input_words", maxLen)
 	c.Bound("vocabulary", fmt.Sprintf("%q (param vocab=%s)", vSmallVocab, c.Param("vocab", "ascii")))
 	c.Bound("filler_words_before_the_vocabulary", vSmallFiller)
+	c.Bound("documents_added_twice_(decoy_then_real_text)", vSmallReplace)
 	c.Bound("corpora", ncorp)
 	c.Bound("thresholds", fmt.Sprint(ts))
 	body := func(r *vx.Run) {
